@@ -549,6 +549,47 @@ func (t *hashTopo) errSentOnAllPaths(fi *fnInfo, errv ssa.Value) (bool, string) 
 		sl.depth = 0
 		return sl.run(s.X).has(errv)
 	}
+	search := func(from *ssa.BasicBlock, fromIdx int, ps *pathState, what string) (bool, string) {
+		loop := fi.innermostLoop(from)
+		reg := fi.regionOf(loop)
+		seen := map[string]bool{}
+		bad := ""
+		var dfs func(b *ssa.BasicBlock, idx int, ps *pathState)
+		dfs = func(b *ssa.BasicBlock, idx int, ps *pathState) {
+			if bad != "" {
+				return
+			}
+			if b == nil {
+				bad = "a path from " + what + " reaches the next receive (or leaves the worker) without sending the error"
+				return
+			}
+			if idx == 0 {
+				k := fmt.Sprintf("%d|%s", b.Index, ps.key())
+				if seen[k] {
+					return
+				}
+				seen[k] = true
+			}
+			for _, in := range b.Instrs[idx:] {
+				if isSendOfErr(in) {
+					return
+				}
+			}
+			for i, s := range reg.succs(b) {
+				_, _, next, feasible := ps.branch(b, i)
+				if !feasible {
+					continue
+				}
+				var nps *pathState
+				if s != nil {
+					nps = next.enter(s, b)
+				}
+				dfs(s, 0, nps)
+			}
+		}
+		dfs(from, fromIdx, ps)
+		return bad == "", bad
+	}
 	tested := false
 	for _, ref := range valueReferrers(errv) {
 		b, ok := ref.(*ssa.BinOp)
@@ -569,37 +610,38 @@ func (t *hashTopo) errSentOnAllPaths(fi *fnInfo, errv ssa.Value) (bool, string) 
 			if nonNilWhenTrue {
 				idx = 0
 			}
-			loop := fi.innermostLoop(iff.Block())
-			reg := fi.regionOf(loop)
-			seen := map[*ssa.BasicBlock]bool{}
-			var dfs func(b *ssa.BasicBlock) (bool, string)
-			dfs = func(b *ssa.BasicBlock) (bool, string) {
-				if b == nil {
-					return false, "a path from the err != nil edge at " + c.bpos(iff.Block()) + " reaches the next receive (or leaves the worker) without sending the error"
-				}
-				if seen[b] {
-					return true, ""
-				}
-				seen[b] = true
-				for _, in := range b.Instrs {
-					if isSendOfErr(in) {
-						return true, ""
-					}
-				}
-				for _, s := range reg.succs(b) {
-					if ok, why := dfs(s); !ok {
-						return false, why
-					}
-				}
-				return true, ""
+			ps := newPathStateFor(fi.fn).seedFromGuards(iff.Block())
+			if _, _, next, feasible := ps.branch(iff.Block(), idx); feasible {
+				ps = next
 			}
-			if ok, why := dfs(iff.Block().Succs[idx]); !ok {
+			start := iff.Block().Succs[idx]
+			if ok, why := search(start, 0, ps.enter(start, iff.Block()), "the err != nil edge at "+c.bpos(iff.Block())); !ok {
 				return false, why
 			}
 		}
 	}
 	if !tested {
-		return false, "the error is never tested against nil"
+		// the error is stored into the result unconditionally (`_, res.err = io.Copy(...)`): every path from the call must send it
+		in, ok := errv.(ssa.Instruction)
+		if !ok {
+			return false, "the error is never tested against nil"
+		}
+		stored := false
+		for _, ref := range valueReferrers(errv) {
+			if _, isStore := ref.(*ssa.Store); isStore {
+				stored = true
+			}
+		}
+		if !stored {
+			return false, "the error is never tested against nil nor stored into the result"
+		}
+		pos := 0
+		for i, x := range in.Block().Instrs {
+			if x == in {
+				pos = i + 1
+			}
+		}
+		return search(in.Block(), pos, newPathStateFor(fi.fn).seedFromGuards(in.Block()), "the call at "+c.ipos(in))
 	}
 	return true, ""
 }
@@ -1786,15 +1828,10 @@ func ruleHS3(c *Ctx) *rule {
 				continue
 			}
 			reg := fi.regionOf(l)
-			type state struct {
-				b     *ssa.BasicBlock
-				sends int
-				dir   bool
-			}
-			seen := map[state]bool{}
+			seen := map[string]bool{}
 			bad := ""
-			var dfs func(b *ssa.BasicBlock, sends int, dir bool, first bool)
-			dfs = func(b *ssa.BasicBlock, sends int, dir bool, first bool) {
+			var dfs func(b *ssa.BasicBlock, sends int, dir bool, first bool, ps *pathState)
+			dfs = func(b *ssa.BasicBlock, sends int, dir bool, first bool, ps *pathState) {
 				if bad != "" {
 					return
 				}
@@ -1807,11 +1844,11 @@ func ruleHS3(c *Ctx) *rule {
 					}
 					return
 				}
-				stt := state{b, sends, dir}
-				if seen[stt] {
+				k := fmt.Sprintf("%d|%d|%v|%s", b.Index, sends, dir, ps.key())
+				if seen[k] {
 					return
 				}
-				seen[stt] = true
+				seen[k] = true
 				for _, in := range b.Instrs {
 					if sd, ok := in.(*ssa.Send); ok && t.results.alias[sd.Chan] {
 						sends++
@@ -1820,7 +1857,6 @@ func ruleHS3(c *Ctx) *rule {
 						}
 					}
 				}
-				iff, _ := lastInstr(b).(*ssa.If)
 				for i, nx := range reg.succs(b) {
 					// leaving the loop through the header's closed-channel edge is not a job path
 					if first && nx == nil {
@@ -1829,17 +1865,22 @@ func ruleHS3(c *Ctx) *rule {
 					if b == l.header && nx == nil {
 						continue
 					}
-					ndir := dir
-					if iff != nil {
-						cond, pol := normCond(iff.Cond, i == 0)
-						if isDirTest(cond) && pol {
-							ndir = true
-						}
+					cond, pol, next, feasible := ps.branch(b, i)
+					if !feasible {
+						continue
 					}
-					dfs(nx, sends, ndir, false)
+					ndir := dir
+					if cond != nil && isDirTest(cond) && pol {
+						ndir = true
+					}
+					var nps *pathState
+					if nx != nil {
+						nps = next.enter(nx, b)
+					}
+					dfs(nx, sends, ndir, false, nps)
 				}
 			}
-			dfs(l.header, 0, false, true)
+			dfs(l.header, 0, false, true, newPathStateFor(w))
 			if bad == "" {
 				r.ok(key, c.ipos(s.instr), "exactly one send per job on every path (none for directories)")
 			} else {
